@@ -8,6 +8,7 @@ import (
 	"os"
 	"os/exec"
 	"path/filepath"
+	"sort"
 	"strings"
 	"sync"
 	"time"
@@ -21,6 +22,7 @@ type ObResult struct {
 	Model   string
 	SMTHash string
 	Output  string
+	script  string
 }
 
 type FuncResult struct {
@@ -138,6 +140,12 @@ func (vc *VC) buildScript(onlyCand bool) (string, []*Obligation) {
 // quantified hypotheses are additionally instantiated at the goal's skolem constants and at the index
 // terms used by the function (sound: instances are consequences of the hypotheses).
 func (vc *VC) singleScript(target *Obligation, model bool) string {
+	return vc.singleScriptOpt(target, model, false)
+}
+
+// singleScriptOpt: deep additionally instantiates the quantified hypotheses at the index terms of the goal's
+// array reads, iterated (bounded E-matching done by the generator).
+func (vc *VC) singleScriptOpt(target *Obligation, model bool, deep bool) string {
 	var b strings.Builder
 	decls := append([]string{}, vc.decls...)
 	for _, ax := range vc.e.axioms {
@@ -166,13 +174,69 @@ func (vc *VC) singleScript(target *Obligation, model bool) string {
 		}
 		terms = append(terms, skolem{t, offSort})
 	}
+	// quantified hypotheses seen so far (parsed), for bounded instantiation before the goal
+	type qhyp struct {
+		sx   *Sx
+		done map[string]bool
+	}
+	var qhyps []*qhyp
 	emit := func(t string) {
 		b.WriteString("(assert " + t + ")\n")
-		if len(terms) > 0 && strings.Contains(t, "(forall ") {
+		if strings.Contains(t, "(forall ") {
 			if sx, err := parseSx(t); err == nil {
-				for _, in := range instances(sx, terms, 48) {
-					b.WriteString("(assert " + in.String() + ")\n")
+				qhyps = append(qhyps, &qhyp{sx, map[string]bool{}})
+			}
+		}
+	}
+	instantiateAll := func(goalSx *Sx) {
+		termSet := map[string]bool{}
+		for _, t := range terms {
+			termSet[t.name] = true
+		}
+		rounds := 1
+		if deep {
+			rounds = 3
+			if goalSx != nil {
+				selectIndices(goalSx, termSet)
+			}
+		}
+		total := 0
+		for round := 0; round < rounds && total < 600; round++ {
+			var cur []skolem
+			for t := range termSet {
+				cur = append(cur, skolem{t, offSort})
+			}
+			sort.Slice(cur, func(i, j int) bool { return cur[i].name < cur[j].name })
+			if len(cur) > 48 {
+				cur = cur[:48]
+			}
+			newTerms := map[string]bool{}
+			for _, q := range qhyps {
+				var fresh []skolem
+				for _, t := range cur {
+					if !q.done[t.name] {
+						q.done[t.name] = true
+						fresh = append(fresh, t)
+					}
 				}
+				if len(fresh) == 0 {
+					continue
+				}
+				for _, in := range instances(q.sx, fresh, 64) {
+					b.WriteString("(assert " + in.String() + ")\n")
+					total++
+					selectIndices(in, newTerms)
+				}
+			}
+			added := false
+			for t := range newTerms {
+				if !termSet[t] && len(termSet) < 96 {
+					termSet[t] = true
+					added = true
+				}
+			}
+			if !added {
+				break
 			}
 		}
 	}
@@ -187,6 +251,10 @@ func (vc *VC) singleScript(target *Obligation, model bool) string {
 			continue
 		}
 		if it.Ob == target {
+			gsx, _ := parseSx(goal)
+			if len(qhyps) > 0 {
+				instantiateAll(gsx)
+			}
 			b.WriteString("(assert (not " + goal + "))\n(check-sat)\n")
 			if model {
 				b.WriteString("(get-model)\n")
@@ -272,7 +340,18 @@ func hashOf(s string) string {
 
 // raceSingle runs one obligation on all solvers in parallel; first decisive answer wins.
 func raceSingle(vc *VC, ob *Obligation, cfg SolverCfg, fileBase string) *ObResult {
-	script := vc.singleScript(ob, true)
+	r := raceSingleOpt(vc, ob, cfg, fileBase, false)
+	if r.Status != "unsat" && r.Status != "sat" && strings.Contains(r.script, "(forall ") {
+		r2 := raceSingleOpt(vc, ob, cfg, fileBase+".deep", true)
+		if r2.Status == "unsat" || r2.Status == "sat" {
+			return r2
+		}
+	}
+	return r
+}
+
+func raceSingleOpt(vc *VC, ob *Obligation, cfg SolverCfg, fileBase string, deep bool) *ObResult {
+	script := vc.singleScriptOpt(ob, true, deep)
 	file := writeFile(cfg.WorkDir, fileBase+".smt2", script)
 	type ans struct {
 		solver string
@@ -301,7 +380,7 @@ func raceSingle(vc *VC, ob *Obligation, cfg SolverCfg, fileBase string) *ObResul
 		}(sd)
 	}
 	go func() { wg.Wait(); close(ch) }()
-	res := &ObResult{Ob: ob, Status: "unknown", SMTHash: hashOf(script)}
+	res := &ObResult{Ob: ob, Status: "unknown", SMTHash: hashOf(script), script: script}
 	var best *ans
 	for a := range ch {
 		a := a
